@@ -1,0 +1,80 @@
+//go:build verif
+
+package storage
+
+// Verification hooks for property C23 (transaction cache). Add-only, compiled only with
+// the `verif` build tag.
+
+import (
+	"encoding/binary"
+
+	"github.com/MixinNetwork/mixin/crypto"
+	"github.com/dgraph-io/badger/v4"
+)
+
+// VerifQueueKey is one CACHETRANSACTIONQUEUE key.
+type VerifQueueKey struct {
+	Timestamp uint64
+	Hash      crypto.Hash
+}
+
+// VerifCacheDump lists the keys of the three cache key spaces in Badger key order.
+func (s *BadgerStore) VerifCacheDump() (queue []VerifQueueKey, order, payload []crypto.Hash, err error) {
+	err = s.cacheDB.View(func(txn *badger.Txn) error {
+		scan := func(prefix string, f func(rest []byte)) {
+			opts := badger.DefaultIteratorOptions
+			opts.PrefetchValues = false
+			opts.Prefix = []byte(prefix)
+			it := txn.NewIterator(opts)
+			defer it.Close()
+			for it.Seek([]byte(prefix)); it.Valid(); it.Next() {
+				f(it.Item().KeyCopy(nil)[len(prefix):])
+			}
+		}
+		scan(cachePrefixTransactionQueue, func(rest []byte) {
+			var k VerifQueueKey
+			k.Timestamp = binary.BigEndian.Uint64(rest[:8])
+			copy(k.Hash[:], rest[8:])
+			queue = append(queue, k)
+		})
+		scan(cachePrefixTransactionOrder, func(rest []byte) {
+			var h crypto.Hash
+			copy(h[:], rest)
+			order = append(order, h)
+		})
+		scan(cachePrefixTransactionCache, func(rest []byte) {
+			var h crypto.Hash
+			copy(h[:], rest)
+			payload = append(payload, h)
+		})
+		return nil
+	})
+	return
+}
+
+// VerifCacheSetQueueKey writes one raw queue key, using the store's own key constructor.
+func (s *BadgerStore) VerifCacheSetQueueKey(ts uint64, hash crypto.Hash) error {
+	return s.cacheDB.Update(func(txn *badger.Txn) error {
+		return txn.Set(cacheTransactionQueueKey(ts, hash), []byte{})
+	})
+}
+
+// VerifCacheWipe empties the cache database.
+func (s *BadgerStore) VerifCacheWipe() error {
+	return s.cacheDB.Update(func(txn *badger.Txn) error {
+		opts := badger.DefaultIteratorOptions
+		opts.PrefetchValues = false
+		it := txn.NewIterator(opts)
+		var keys [][]byte
+		for it.Rewind(); it.Valid(); it.Next() {
+			keys = append(keys, it.Item().KeyCopy(nil))
+		}
+		it.Close()
+		for _, k := range keys {
+			if err := txn.Delete(k); err != nil {
+				return err
+			}
+		}
+		return nil
+	})
+}
